@@ -30,7 +30,7 @@ func main() {
 
 func cmdShard(args []string) {
 	fs := flag.NewFlagSet("shard", flag.ExitOnError)
-	mode := fs.String("mode", "crud", "crud|filter")
+	mode := fs.String("mode", "crud", "crud|filter|rank|cache|graph")
 	cfgName := fs.String("config", "scalars", "configuration name")
 	seed := fs.Int64("seed", 1, "seed")
 	hist := fs.Int("hist", 5, "number of histories")
@@ -39,8 +39,12 @@ func cmdShard(args []string) {
 	dir := fs.String("dir", os.TempDir(), "scratch directory for database files")
 	cache := fs.Int64("cache", -1, "shared cache size (-1 unlimited, 0 off)")
 	mem := fs.Bool("mem", false, "in-memory backend")
-	panelEvery := fs.Int("panel-every", 1, "run the query panel after every k-th batch")
+	panelEvery := fs.Int("panel-every", 1, "run the filter panel after every k-th batch")
 	sample := fs.Int("sample", 0, "sample size of the leaf panel (0 = all)")
+	rank := fs.Int("rank", 6, "ranking queries per ranking property after every batch")
+	insertOnly := fs.Bool("insert-only", false, "insert batches only")
+	maxBatch := fs.Int("maxbatch", 0, "largest random batch (0 = 5)")
+	nids := fs.Int("nids", 0, "size of the id universe (0 = configuration default)")
 	fs.Parse(args)
 	cfg, ok := sd.Configs[*cfgName]
 	if !ok {
@@ -55,7 +59,33 @@ func cmdShard(args []string) {
 		os.Exit(2)
 	}
 	defer tw.Close()
-	opts := sd.HistOpts{Mode: *mode, Batches: *batches, PanelEvery: *panelEvery, Sample: *sample}
+	if *nids > 0 {
+		cfg.NIDs = *nids
+	}
+	opts := sd.HistOpts{Batches: *batches, Sample: *sample, InsertOnly: *insertOnly, MaxBatch: *maxBatch}
+	switch *mode {
+	case "crud":
+		opts.GetAll = true
+	case "filter":
+		opts.GetAll = true
+		opts.FilterEvery = *panelEvery
+	case "rank":
+		opts.Rank = *rank
+	case "cache":
+		opts.GetAll = true
+		opts.Rank = *rank
+		opts.FilterEvery = *panelEvery
+		opts.Cold = true
+		if opts.Sample == 0 {
+			opts.Sample = 60
+		}
+	case "graph":
+		opts.Graph = true
+		opts.Rank = *rank
+	default:
+		fmt.Fprintln(os.Stderr, "unknown mode", *mode)
+		os.Exit(2)
+	}
 	for h := 0; h < *hist; h++ {
 		r := sd.NewRunner(cfg, *seed*1000+int64(h), tw, *dir)
 		if err := r.RunHistory(h, opts); err != nil {
